@@ -103,14 +103,44 @@ def instantiate(fs, max_inst=4000, extra_int=()):
     return out, count
 
 
-def _check_z3(smt2, timeout_ms):
-    s = z3.Solver()
-    s.set("timeout", timeout_ms)
-    s.from_string(smt2)
+Z3_BIN = os.environ.get("PYVC_Z3_BIN") or (
+    "/usr/local/bin/z3-new" if os.path.exists("/usr/local/bin/z3-new")
+    else "z3-new")
+
+
+def _run_z3_cli(smt2, timeout_ms, want_model=False):
+    """Run the z3 binary on SMT2 text under a hard (process) timeout.
+    Returns (status, seconds, model_text)."""
+    text = smt2
+    if want_model:
+        text = text + "\n(get-model)\n"
+    with tempfile.NamedTemporaryFile("w", suffix=".smt2", delete=False) as f:
+        f.write(text)
+        path = f.name
     t0 = time.time()
-    r = s.check()
-    dt = time.time() - t0
-    return str(r), dt, s
+    try:
+        p = subprocess.run([Z3_BIN, f"-T:{max(1, timeout_ms // 1000)}",
+                            f"-t:{timeout_ms}", "-smt2", path],
+                           capture_output=True, text=True,
+                           timeout=timeout_ms / 1000 + 10)
+        out = p.stdout.strip().splitlines()
+        r = out[0].strip() if out else "unknown"
+        model = "\n".join(out[1:])[:8000] if want_model else None
+        if r not in ("sat", "unsat", "unknown"):
+            r = "unknown"
+    except subprocess.TimeoutExpired:
+        r, model = "unknown", None
+    finally:
+        try:
+            os.unlink(path)
+        except OSError:
+            pass
+    return r, time.time() - t0, model
+
+
+def _check_z3(smt2, timeout_ms):
+    r, dt, _ = _run_z3_cli(smt2, timeout_ms)
+    return r, dt, None
 
 
 def _model_text(s, limit=6000):
@@ -153,20 +183,32 @@ def _check_cvc5(smt2, timeout_ms):
     return r, time.time() - t0
 
 
+def _parse_model(text):
+    if not text:
+        return None
+    out = {}
+    import re
+    for m in re.finditer(r"\(define-fun\s+(\S+)\s+\(\)\s+\S+\s+([^\n]*)\)",
+                         text):
+        out[m.group(1)] = m.group(2).strip()[:200]
+    out["_raw"] = text[:3000]
+    return out
+
+
 def solve_one(job):
-    """job = (index, smt2 text, want_cvc5_too)"""
+    """job = (index, smt2 text, want_cvc5_too, is_canary)"""
     idx, smt2, both = job[:3]
     canary = len(job) > 3 and job[3]
     res = {"idx": idx, "status": "unknown", "backend": None, "time": 0.0,
            "model": None, "cvc5": None}
     try:
         if canary:
-            r, dt, s = _check_z3(smt2, 1500)
+            r, dt, _ = _check_z3(smt2, 1500)
             res["time"] = dt
             res["status"] = "unsat" if r == "unsat" else "not-unsat"
             res["backend"] = "z3"
             return res
-        r, dt, s = _check_z3(smt2, Z3_TIMEOUT_MS)
+        r, dt, _ = _check_z3(smt2, Z3_TIMEOUT_MS)
         res["time"] += dt
         if r == "unsat":
             res["status"] = "unsat"
@@ -177,28 +219,30 @@ def solve_one(job):
                 res["time"] += dtc
             return res
         if r == "sat":
+            _, dt2, mt = _run_z3_cli(smt2, Z3_TIMEOUT_MS, want_model=True)
+            res["time"] += dt2
             res["status"] = "sat"
             res["backend"] = "z3"
-            res["model"] = _model_text(s)
+            res["model"] = _parse_model(mt)
             return res
         # unknown: ground instantiation (sat => candidate counter-model)
+        s = z3.Solver()
+        s.from_string(smt2)
         fs = list(s.assertions())
         inst, n = instantiate(fs)
         s2 = z3.Solver()
-        s2.set("timeout", Z3_TIMEOUT_MS)
         for f in inst:
             if z3.is_quantifier(f):
                 continue  # drop what could not be instantiated (weakening)
             s2.add(f)
-        t0 = time.time()
-        r2 = s2.check()
-        res["time"] += time.time() - t0
-        if r2 == z3.unsat:
+        smt2_inst = s2.to_smt2()
+        r2, dt2, mt = _run_z3_cli(smt2_inst, Z3_TIMEOUT_MS, want_model=True)
+        res["time"] += dt2
+        if r2 == "unsat":
             res["status"] = "unsat"
             res["backend"] = "z3-inst"
             return res
-        model = _model_text(s2) if r2 == z3.sat else None
-        # cvc5 on the original
+        model = _parse_model(mt) if r2 == "sat" else None
         rc, dtc = _check_cvc5(smt2, CVC5_TIMEOUT_MS)
         res["time"] += dtc
         res["cvc5"] = rc
@@ -206,10 +250,7 @@ def solve_one(job):
             res["status"] = "unsat"
             res["backend"] = "cvc5"
             return res
-        if r2 == z3.sat:
-            # refuted only modulo instantiation: second round with the
-            # model's witnesses is implicit in `instantiate` using all ground
-            # terms; report as sat-inst
+        if r2 == "sat":
             res["status"] = "sat"
             res["backend"] = "z3-inst"
             res["model"] = model
@@ -242,6 +283,33 @@ def discharge(obligations, axioms, both=False, procs=None):
             results = pool.map(solve_one, jobs, chunksize=1)
     for r in results:
         ob = obligations[r["idx"]]
+        ob.status = r["status"]
+        ob.backend = r["backend"]
+        ob.time = r["time"]
+        ob.model = r["model"]
+        ob.cvc5 = r.get("cvc5")
+
+
+def discharge_text(obs, both=False, procs=None):
+    """Discharge serialized obligations (run.Ob: .smt2 text)."""
+    jobs = []
+    for i, ob in enumerate(obs):
+        if ob.trivial:
+            ob.status = "unsat"
+            ob.backend = "trivial"
+            continue
+        jobs.append((i, ob.smt2, both, ob.kind == "canary"))
+    if not jobs:
+        return
+    procs = procs or min(16, os.cpu_count() or 4, max(1, len(jobs)))
+    if procs == 1 or len(jobs) == 1:
+        results = [solve_one(j) for j in jobs]
+    else:
+        ctx = mp.get_context("fork")
+        with ctx.Pool(procs) as pool:
+            results = pool.map(solve_one, jobs, chunksize=1)
+    for r in results:
+        ob = obs[r["idx"]]
         ob.status = r["status"]
         ob.backend = r["backend"]
         ob.time = r["time"]
